@@ -5,7 +5,7 @@ import re
 from ..astutil import norm, const, NO, compare, tail, names
 from ..index import AnalysisError, walk_own, builtin_exc
 from ..absint import Explorer, Inst, UNKNOWN
-from .common import (site, key, calls_to, method_calls, nodes_with, guard_check, stores_to_name)
+from .common import (site, key, calls_to, method_calls, nodes_with, guard_check, stores_to_name, carrying_stores)
 
 HANDLES = ["gunicorn.workers.sync.SyncWorker.handle", "gunicorn.workers.gthread.ThreadWorker.handle", "gunicorn.workers.base_async.AsyncWorker.handle"]
 BASE = "gunicorn.workers.base.Worker"
@@ -161,16 +161,29 @@ def r1_r2_r5(ctx):
                       "after `%s` control can reach handle_request again: a rejected/broken request stream would be dispatched to the application" % hn.text, "no path to handle_request")
         # ---- R2: the dispatched request is the one parsed in this iteration
         for c in hreq:
-            cand = [a for a in c.args if isinstance(a, ast.Name) and any(isinstance(s.ast, ast.Assign) and s.ast.value in nexts for s in stores_to_name(f, a.id))]
+            is_next = lambda v: v in nexts
+            cand = [a for a in c.args if isinstance(a, ast.Name) and carrying_stores(f, a.id, is_next)]
             ctx.need(cand, "C05.R2: handle_request is not given a variable assigned from next(parser) in %s" % q)
             R = cand[0].id
-            defs = [s for s in stores_to_name(f, R) if isinstance(s.ast, ast.Assign) and s.ast.value in nexts]
+            defs = carrying_stores(f, R, is_next)
             others = [s for s in stores_to_name(f, R) if s not in defs]
             cn = nodes_with(f, c)
             okk = True
+            # while R holds None (every other store is `R = None`), the branches taken only by a request are infeasible
+            dead = []
+            if all(isinstance(s.ast, ast.Assign) and const(s.ast.value, NO) is None for s in others):
+                for tn in g.tests():
+                    e, neg = tn.ast, False
+                    while isinstance(e, ast.UnaryOp) and isinstance(e.op, ast.Not):
+                        e, neg = e.operand, not neg
+                    if isinstance(e, ast.Compare) and len(e.ops) == 1 and isinstance(e.left, ast.Name) and e.left.id == R and const(e.comparators[0], NO) is None and isinstance(e.ops[0], (ast.Is, ast.IsNot)):
+                        neg = neg != isinstance(e.ops[0], ast.Is)
+                    elif not (isinstance(e, ast.Name) and e.id == R):
+                        continue
+                    dead.append((tn, "false" if neg else "true"))
             for s in [g.entry] + others:
                 for t in cn:
-                    if g.path(s, [t], without_nodes=defs, follow_exc=False) is not None and s is not t:
+                    if g.path(s, [t], without_nodes=defs + (others if s is g.entry else []), without_edges=dead if s is not g.entry else (), follow_exc=False) is not None and s is not t:
                         okk = False
             # falsy request -> not dispatched (gthread/async test `if not req`)
             ctx.check("C05.R2", okk, key(f, "dispatch-fresh-request"), site(f, c), "handle_request can be called with a request that was not returned by next(parser) in this iteration",
